@@ -160,6 +160,12 @@ func ReadMultiSegmentFile(basePath string, globalBlockStart, globalBlockEnd int,
 		segSize = opts.SegmentSize
 	}
 	blocksPerSegment := segSize / PageSize
+	if blocksPerSegment <= 0 {
+		return nil, fmt.Errorf("segment size %d is smaller than a block", segSize)
+	}
+	if globalBlockStart < 0 {
+		return nil, fmt.Errorf("start block cannot be negative")
+	}
 	
 	var result []byte
 	
